@@ -1,15 +1,15 @@
-\* MUST VIOLATE StoredOnTree: variant that does not require the first header's parent (anti-vacuity)
+\* tiny exhaustive run with -coverage: every action of the specification is taken (anti-vacuity)
 SPECIFICATION MCSpec
 CONSTANTS
   MaxLocators = 4
   MaxHeaders = 3
-  Lens = {0, 1, 2, 4}
+  Lens = {0, 1, 3}
   Diffs = {1, 2}
-  MaxIds = 8
+  MaxIds = 6
   MaxReorgs = 1
   MaxResets = 1
   MaxByz = 1
-  Variant = "no_parent_check"
+  Variant = "code"
   ProbeHeights = {}
   FullChainUpTo = 0
 VIEW View
